@@ -77,6 +77,10 @@ func (f *Do) Call(s *slip.Scope, args slip.List, depth int) (result slip.Object)
 		if ns.Eval(test, d2) != nil {
 			for _, rf := range rforms {
 				result = ns.Eval(rf, d2)
+				switch result.(type) {
+				case *slip.ReturnResult, *GoTo:
+					return result
+				}
 			}
 			break
 		}
@@ -88,9 +92,9 @@ func (f *Do) Call(s *slip.Scope, args slip.List, depth int) (result slip.Object)
 					if tr.Tag == nil {
 						return tr.Result
 					}
-					if s.Block {
-						return tr
-					}
+					// return-from made sure a block with that name
+					// encloses this form.
+					return tr
 				case *GoTo:
 					for i++; i < len(args); i++ {
 						if args[i] == tr.Tag {
